@@ -3,7 +3,7 @@
 record what was run (reads /tmp/val_PID_*.txt written by tools/validate_seed.sh)."""
 import json, os, re, shutil, sys
 pid = sys.argv[1]; name = sys.argv[2] if len(sys.argv) > 2 else pid
-src = f"/tmp/seed_out/{pid}"; dst = f"/verif/seeded/{name}"
+src = os.environ.get("SEED_SRC", f"/tmp/seed_out/{pid}"); dst = f"/verif/seeded/{name}"
 os.makedirs(dst, exist_ok=True)
 for f in ("patch.diff", "demo.py"):
     shutil.copy(os.path.join(src, f), os.path.join(dst, f))
